@@ -18,8 +18,11 @@
       generator.  Lua 5.1's [read_numeral] is the same run without "_" in the first loop;
     - "[" "="+ not followed by "[" is a lexical error (5.1: invalid long string delimiter;
       Luau: broken string); a lone "~" is an error;
-    - an interpolated string is ONE atomic token [TInterp] from a backtick to the next
-      unescaped backtick; the expressions inside "{...}" are not lexed (limitation);
+    - interpolated strings are lexed as Luau does: the pieces of text are tokens of kind
+      [TInterp] ("`text{", "}text{", "}text`", or the whole "`text`" when there is no
+      expression) and the expressions between them are lexed normally; a stack of brace
+      depths ([list nat], one entry per interpolated string being read) tells which "}"
+      resumes the string.  "{{" is not rejected (Luau rejects it);
     - comments are tokens of kind [TComment] in [lex_all]; [lex] drops them;
     - symbols: + - * / // % ^ # == ~= <= >= < > = ( ) { } [ ] ; : :: , . .. ...
       -> += -= *= /= //= %= ^= ..= ? & | @ . *)
@@ -84,7 +87,7 @@ Inductive lstate :=
 | LErr.
 
 Definition immediate_sym (c : N) : bool :=
-  (c =? 40) || (c =? 41) || (c =? 123) || (c =? 125) || (c =? 93) || (c =? 59) || (c =? 44)
+  (c =? 40) || (c =? 41) || (c =? 93) || (c =? 59) || (c =? 44)
   || (c =? 35) || (c =? 63) || (c =? 38) || (c =? 124) || (c =? 64).
 
 Definition pending_of (c : N) : option psym :=
@@ -94,17 +97,29 @@ Definition pending_of (c : N) : option psym :=
   else if c =? 43 then Some PPlus else if c =? 42 then Some PStar else if c =? 37 then Some PPercent
   else if c =? 94 then Some PCaret else None.
 
+(** the lexer configuration: brace depths of the interpolated strings being read
+    (innermost first) and the state *)
+Definition cfg := (list nat * lstate)%type.
+
 (** first byte of a token (or white space) *)
-Definition start (c : N) : list token * lstate :=
-  if is_ws c then ([], LStart)
-  else if is_ident_start c then ([], LName [c])
-  else if is_digit c then ([], LNum NHead [c])
-  else if (c =? 34) || (c =? 39) then ([], LStr c false [c])
-  else if c =? 96 then ([], LInterp false [c])
-  else if immediate_sym c then ([(TSym, [c])], LStart)
+Definition start (stk : list nat) (c : N) : list token * cfg :=
+  if is_ws c then ([], (stk, LStart))
+  else if is_ident_start c then ([], (stk, LName [c]))
+  else if is_digit c then ([], (stk, LNum NHead [c]))
+  else if (c =? 34) || (c =? 39) then ([], (stk, LStr c false [c]))
+  else if c =? 96 then ([], (stk, LInterp false [c]))
+  else if c =? 123 then
+    ([(TSym, [c])], (match stk with d :: r => S d :: r | [] => [] end, LStart))
+  else if c =? 125 then
+    match stk with
+    | O :: r => ([], (r, LInterp false [c]))           (* resumes the interpolated string *)
+    | S d :: r => ([(TSym, [c])], (d :: r, LStart))
+    | [] => ([(TSym, [c])], ([], LStart))
+    end
+  else if immediate_sym c then ([(TSym, [c])], (stk, LStart))
   else match pending_of c with
-       | Some p => ([], LSym p)
-       | None => ([], LErr)
+       | Some p => ([], (stk, LSym p))
+       | None => ([], (stk, LErr))
        end.
 
 (** can byte [c] extend the number run in phase [ph]; the next phase *)
@@ -160,8 +175,8 @@ Definition flush (st : lstate) : list token :=
   end.
 
 (** emit the pending token, then treat [c] as the first byte of what follows *)
-Definition restart (st : lstate) (c : N) : list token * lstate :=
-  let '(o, st') := start c in (flush st ++ o, st').
+Definition restart (stk : list nat) (st : lstate) (c : N) : list token * cfg :=
+  let '(o, k) := start stk c in (flush st ++ o, k).
 
 (** progress of the closing bracket "]" "="^n "]" of a long string / comment *)
 Definition close_next (n : nat) (cl : option nat) (c : N) : bool * option nat :=
@@ -178,62 +193,77 @@ Definition close_next (n : nat) (cl : option nat) (c : N) : bool * option nat :=
     end
   else (false, None).
 
-Definition step (st : lstate) (c : N) : list token * lstate :=
+(** one byte in a state other than [LStart] that does not look at the stack, unless the
+    pending token ends ([None]: the byte cannot extend it) *)
+Definition step_st (st : lstate) (c : N) : option (list token * lstate) :=
   match st with
-  | LStart => start c
-  | LName racc => if is_ident_char c then ([], LName (c :: racc)) else restart st c
+  | LStart => None
+  | LName racc => if is_ident_char c then Some ([], LName (c :: racc)) else None
   | LNum ph racc =>
     match num_next ph c with
-    | Some ph' => ([], LNum ph' (c :: racc))
-    | None => restart st c
+    | Some ph' => Some ([], LNum ph' (c :: racc))
+    | None => None
     end
-  | LSym p =>
-    match sym_next p c with
-    | Some r => r
-    | None => restart st c
-    end
+  | LSym p => sym_next p c
   | LBrOpen n =>
-    if c =? 61 then ([], LBrOpen (S n))
-    else if c =? 91 then ([], LLong n None (91 :: repeat 61 n ++ [91]))
-    else ([], LErr)
+    Some (if c =? 61 then ([], LBrOpen (S n))
+          else if c =? 91 then ([], LLong n None (91 :: repeat 61 n ++ [91]))
+          else ([], LErr))
   | LStr q esc racc =>
-    if esc then ([], LStr q false (c :: racc))
-    else if c =? 92 then ([], LStr q true (c :: racc))
-    else if c =? q then ([(TString, rev (c :: racc))], LStart)
-    else if (c =? 10) || (c =? 13) then ([], LErr)
-    else ([], LStr q false (c :: racc))
+    Some (if esc then ([], LStr q false (c :: racc))
+          else if c =? 92 then ([], LStr q true (c :: racc))
+          else if c =? q then ([(TString, rev (c :: racc))], LStart)
+          else if (c =? 10) || (c =? 13) then ([], LErr)
+          else ([], LStr q false (c :: racc)))
   | LLong n cl racc =>
-    let '(closed, cl') := close_next n cl c in
-    if closed then ([(TString, rev (c :: racc))], LStart) else ([], LLong n cl' (c :: racc))
+    Some (let '(closed, cl') := close_next n cl c in
+          if closed then ([(TString, rev (c :: racc))], LStart) else ([], LLong n cl' (c :: racc)))
   | LInterp esc racc =>
-    if esc then ([], LInterp false (c :: racc))
-    else if c =? 92 then ([], LInterp true (c :: racc))
-    else if c =? 96 then ([(TInterp, rev (c :: racc))], LStart)
-    else ([], LInterp false (c :: racc))
+    Some (if esc then ([], LInterp false (c :: racc))
+          else if c =? 92 then ([], LInterp true (c :: racc))
+          else if c =? 96 then ([(TInterp, rev (c :: racc))], LStart)
+          else ([], LInterp false (c :: racc)))      (* "{" is handled by [step] *)
   | LDash2 racc =>
-    if c =? 91 then ([], LDashBr 0 (c :: racc))
-    else if c =? 10 then ([(TComment, rev racc)], LStart)
-    else ([], LLine (c :: racc))
+    Some (if c =? 91 then ([], LDashBr 0 (c :: racc))
+          else if c =? 10 then ([(TComment, rev racc)], LStart)
+          else ([], LLine (c :: racc)))
   | LDashBr n racc =>
-    if c =? 61 then ([], LDashBr (S n) (c :: racc))
-    else if c =? 91 then ([], LLongC n None (c :: racc))
-    else if c =? 10 then ([(TComment, rev racc)], LStart)
-    else ([], LLine (c :: racc))
+    Some (if c =? 61 then ([], LDashBr (S n) (c :: racc))
+          else if c =? 91 then ([], LLongC n None (c :: racc))
+          else if c =? 10 then ([(TComment, rev racc)], LStart)
+          else ([], LLine (c :: racc)))
   | LLine racc =>
-    if c =? 10 then ([(TComment, rev racc)], LStart) else ([], LLine (c :: racc))
+    Some (if c =? 10 then ([(TComment, rev racc)], LStart) else ([], LLine (c :: racc)))
   | LLongC n cl racc =>
-    let '(closed, cl') := close_next n cl c in
-    if closed then ([(TComment, rev (c :: racc))], LStart) else ([], LLongC n cl' (c :: racc))
-  | LErr => ([], LErr)
+    Some (let '(closed, cl') := close_next n cl c in
+          if closed then ([(TComment, rev (c :: racc))], LStart) else ([], LLongC n cl' (c :: racc)))
+  | LErr => Some ([], LErr)
   end.
 
-Fixpoint run (st : lstate) (s : bytes) : list token * lstate :=
+Definition step (k : cfg) (c : N) : list token * cfg :=
+  let '(stk, st) := k in
+  match st with
+  | LStart => start stk c
+  | LInterp false racc =>
+    if c =? 123 then ([(TInterp, rev (c :: racc))], (O :: stk, LStart))   (* an expression starts *)
+    else match step_st st c with
+         | Some (o, st') => (o, (stk, st'))
+         | None => restart stk st c
+         end
+  | _ =>
+    match step_st st c with
+    | Some (o, st') => (o, (stk, st'))
+    | None => restart stk st c
+    end
+  end.
+
+Fixpoint run (k : cfg) (s : bytes) : list token * cfg :=
   match s with
-  | [] => ([], st)
+  | [] => ([], k)
   | c :: s' =>
-    let '(o, st') := step st c in
-    let '(o', st'') := run st' s' in
-    (o ++ o', st'')
+    let '(o, k') := step k c in
+    let '(o', k'') := run k' s' in
+    (o ++ o', k'')
   end.
 
 (** end of input *)
@@ -247,11 +277,13 @@ Definition finish (st : lstate) : option (list token) :=
   | LBrOpen _ | LStr _ _ _ | LLong _ _ _ | LInterp _ _ | LLongC _ _ _ | LErr => None
   end.
 
+Definition cfg0 : cfg := ([], LStart).
+
 Definition lex_all (s : bytes) : option (list token) :=
-  let '(o, st) := run LStart s in
-  match finish st with
-  | Some o' => Some (o ++ o')
-  | None => None
+  let '(o, (stk, st)) := run cfg0 s in
+  match stk, finish st with
+  | [], Some o' => Some (o ++ o')
+  | _, _ => None
   end.
 
 Definition is_comment (t : token) : bool := tkind_eqb (fst t) TComment.
@@ -272,10 +304,8 @@ Definition clean (st : lstate) : bool :=
 (** does byte [c] extend the pending token of [st] (only meaningful for [clean] states) *)
 Definition extends (st : lstate) (c : N) : bool :=
   match st with
-  | LName _ => is_ident_char c
-  | LNum ph _ => match num_next ph c with Some _ => true | None => false end
-  | LSym p => match sym_next p c with Some _ => true | None => false end
-  | _ => false
+  | LStart => false
+  | _ => match step_st st c with Some _ => true | None => false end
   end.
 
 (** * keywords (Lua 5.1; Luau's contextual keywords are plain names) *)
